@@ -297,6 +297,7 @@ type c19Env struct {
 	pullMu  sync.Mutex
 	pulled  map[string][]byte // docid -> body of the rev message received by the BLIP puller
 	pullErr map[string]string
+	offered map[string]bool // docid -> the puller was offered the document in a changes message
 	failN   map[string]int
 }
 
@@ -422,6 +423,7 @@ func (e *c19Env) blipPull(since string) {
 	e.pullMu.Lock()
 	e.pulled = map[string][]byte{}
 	e.pullErr = map[string]string{}
+	e.offered = map[string]bool{}
 	e.pullMu.Unlock()
 	var changesDone, revsDone sync.WaitGroup
 	ctxb := e.bt.blipContext
@@ -440,9 +442,16 @@ func (e *c19Env) blipPull(since string) {
 			batch := [][]any{}
 			_ = json.Unmarshal(body, &batch)
 			resp := [][]any{}
-			for range batch {
+			for _, entry := range batch {
 				resp = append(resp, []any{})
 				revsDone.Add(1)
+				if len(entry) > 1 {
+					if id, ok := entry[1].(string); ok {
+						e.pullMu.Lock()
+						e.offered[id] = true
+						e.pullMu.Unlock()
+					}
+				}
 			}
 			out, _ := json.Marshal(resp)
 			response := request.Response()
